@@ -172,6 +172,11 @@ impl IterableSet {
 
 impl fmt::Display for IterableSet {
     fn fmt(&self, f: &mut fmt::Formatter<'_>) -> fmt::Result {
-        write!(f, "{} in {}", self.var, *self.iterator)
+        match &*self.iterator {
+            PreExp::FunctionCall(_, function) => {
+                write!(f, "{} in {}", self.var, function.to_string_as_iterator())
+            }
+            iterator => write!(f, "{} in {}", self.var, iterator),
+        }
     }
 }
